@@ -1113,6 +1113,50 @@ async fn shutdown_full_mailbox(_a: &Value) -> Value {
            "weak_reference_upgrades": weak.upgrade().is_some(), "connect_after_shutdown": later_connect, "rebind_at_once": rebind})
 }
 
+/// C12: RPCs abandoned while the serving side's whole service applies back-pressure (a capacity-1 service held by one long request that is NOT abandoned).
+/// The listener grants 4 concurrent streams; 12 RPCs are each given up after 100 ms.  While the service is held none of them may be handed to it later
+/// (an abandoned request must not be served after the fact), and once the holder is released a fresh RPC is served at once.
+async fn abandoned_behind_backpressure(_a: &Value) -> Value {
+    use std::sync::atomic::{AtomicUsize, Ordering};
+    use std::sync::Arc;
+    let stale = Arc::new(AtomicUsize::new(0));
+    let calls = Arc::new(AtomicUsize::new(0));
+    let release = Arc::new(tokio::sync::Notify::new());
+    let started = Arc::new(tokio::sync::Notify::new());
+    let (s2, c2, r2, st2) = (stale.clone(), calls.clone(), release.clone(), started.clone());
+    let inner = tower::service_fn(move |r: Request<Bytes>| { let (stale, calls, release, started) = (s2.clone(), c2.clone(), r2.clone(), st2.clone()); async move {
+        calls.fetch_add(1, Ordering::SeqCst);
+        if r.body().as_ref() == b"hold" { started.notify_one(); release.notified().await; }
+        if r.body().as_ref() == b"abandoned" { stale.fetch_add(1, Ordering::SeqCst); }
+        Ok::<_, std::convert::Infallible>(Response::new(r.into_body()))
+    } });
+    let limited = tower::ServiceExt::boxed_clone(tower::limit::ConcurrencyLimit::new(inner, 1));
+    let mut c = Config::default();
+    c.connect_timeout_ms = Some(3000);
+    let mut quic = anemo::QuicConfig::default();
+    quic.max_concurrent_bidi_streams = Some(4);
+    c.quic = Some(quic);
+    let server = anemo::Network::bind("127.0.0.1:0").server_name("verif").private_key([161; 32]).config(c.clone()).start(limited).expect("server");
+    let client = anemo::Network::bind("127.0.0.1:0").server_name("verif").private_key([162; 32]).config(c).start(echo()).expect("client");
+    let sid = client.connect(server.local_addr()).await.expect("connect");
+    let cl = client.clone();
+    let held = tokio::spawn(async move { cl.rpc(sid, Request::new(Bytes::from_static(b"hold"))).await.map(|r| r.into_body().to_vec()) });
+    let holder_started = tokio::time::timeout(Duration::from_secs(5), started.notified()).await.is_ok();
+    let mut gave_up = 0;
+    for _ in 0..12 {
+        if tokio::time::timeout(Duration::from_millis(100), client.rpc(sid, Request::new(Bytes::from_static(b"abandoned")))).await.is_err() { gave_up += 1; }
+    }
+    tokio::time::sleep(Duration::from_millis(500)).await;
+    release.notify_one();
+    let held_ok = matches!(tokio::time::timeout(Duration::from_secs(5), held).await, Ok(Ok(Ok(ref b))) if b == b"hold");
+    let t0 = std::time::Instant::now();
+    let fresh = matches!(tokio::time::timeout(Duration::from_secs(3), client.rpc(sid, Request::new(Bytes::from_static(b"fresh")))).await, Ok(Ok(ref r)) if r.body().as_ref() == b"fresh");
+    let fresh_ms = t0.elapsed().as_millis() as u64;
+    tokio::time::sleep(Duration::from_millis(300)).await;
+    json!({"holder_started": holder_started, "callers_gave_up": gave_up, "held_rpc_answered": held_ok, "fresh_rpc_ok": fresh, "fresh_rpc_ms": fresh_ms,
+           "abandoned_requests_served_after_the_fact": stale.load(Ordering::SeqCst), "handler_calls": calls.load(Ordering::SeqCst)})
+}
+
 fn runtime_teardown() -> Value {
     let mut out = Vec::new();
     for moment in ["just_started", "traffic_in_flight", "during_shutdown", "after_shutdown"] {
@@ -1166,7 +1210,7 @@ fn main() {
         println!("{}", runtime_teardown());
         std::process::exit(0);
     }
-    let multi = matches!(args.get(1).map(|s| s.as_str()), Some("admission") | Some("default_timeouts") | Some("rpc_pairing") | Some("history") | Some("oversize_confined") | Some("hostile_streams") | Some("network_names") | Some("claimed_name_grid") | Some("stolen_certificate") | Some("backpressure_service") | Some("abrupt_close_mt") | Some("shutdown_scenario") | Some("abandoned_rpcs") | Some("typed_rpc_roundtrip") | Some("busy_node_still_dials") | Some("panicking_handler") | Some("end_to_end_fidelity") | Some("mutual_dial_inflight") | Some("identity_claims_in_headers") | Some("header_only_deadline") | Some("hostile_requests"));
+    let multi = matches!(args.get(1).map(|s| s.as_str()), Some("admission") | Some("default_timeouts") | Some("rpc_pairing") | Some("history") | Some("oversize_confined") | Some("hostile_streams") | Some("network_names") | Some("claimed_name_grid") | Some("stolen_certificate") | Some("backpressure_service") | Some("abrupt_close_mt") | Some("shutdown_scenario") | Some("abandoned_rpcs") | Some("abandoned_behind_backpressure") | Some("typed_rpc_roundtrip") | Some("busy_node_still_dials") | Some("panicking_handler") | Some("end_to_end_fidelity") | Some("mutual_dial_inflight") | Some("identity_claims_in_headers") | Some("header_only_deadline") | Some("hostile_requests"));
     let rt = if multi {
         tokio::runtime::Builder::new_multi_thread().worker_threads(2).enable_all().build().unwrap()
     } else {
@@ -1304,6 +1348,7 @@ async fn run(args: Vec<String>) {
         "panicking_handler" => panicking_handler(&a).await,
         "auth_sweep" => auth_sweep(&a).await,
         "abandoned_rpcs" => abandoned_rpcs(&a).await,
+        "abandoned_behind_backpressure" => abandoned_behind_backpressure(&a).await,
         "backpressure_service" => backpressure_service(&a).await,
         "shutdown_scenario" => shutdown_scenario(&a).await,
         "shutdown_full_mailbox" => shutdown_full_mailbox(&a).await,
